@@ -877,6 +877,14 @@ class Interp:
             return
         self.assign(st.target, self.binop(st.op, cur, rhs), env, module)
 
+    def set_attr(self, o, attr, v):
+        """`o.attr = v` as the user of the object writes it (runs a property setter if the class has one)"""
+        setter = self._find_setter(o.cls, attr) if isinstance(o, Obj) and o.cls is not None else None
+        if setter is not None:
+            self.call_fi(setter, [o, v], {})
+        else:
+            o.fields[attr] = v
+
     def assign(self, t, v, env, module):
         if isinstance(t, ast.Name):
             # assign in the defining scope if nonlocal-ish closure var exists and not local
@@ -2440,6 +2448,22 @@ class Interp:
                 todo.extend(self.p.classes.get(b, []))
         return out
 
+    def _set_has_equal(self, st, x):
+        """does the set hold an element equal to x under the class's own __eq__ (records with a hand-written identity)?"""
+        if isinstance(x, Obj) and x.cls is not None:
+            eqm = self.p.find_method(x.cls, "__eq__")
+            if eqm is not None:
+                for y in list(st):
+                    if y is x:
+                        return True
+                    if isinstance(y, Obj) and y.cls is x.cls and self.truth(self.call_fi(eqm, [y, x], {}), "__eq__") is True:
+                        return True
+                return False
+        try:
+            return x in st
+        except TypeError:
+            return False
+
     def _method(self, recv, name, args, kwargs):
         """method of a native value"""
         if name == "__getitem__" and len(args) == 1 and not kwargs and isinstance(recv, (dict, list, tuple, str)):
@@ -2626,7 +2650,8 @@ class Interp:
                 return None
         if isinstance(recv, set):
             if name == "add":
-                recv.add(args[0])
+                if not self._set_has_equal(recv, args[0]):
+                    recv.add(args[0])
                 return None
             if name == "discard":
                 recv.discard(args[0])
@@ -2641,7 +2666,13 @@ class Interp:
                 return None
         if isinstance(recv, set) and name in ("update", "difference_update", "intersection_update") and not any(isinstance(x, Unknown) for x in args):
             for x in args:
-                getattr(recv, name)(self.iterate(x) if not isinstance(x, (set, frozenset)) else x)
+                items_ = self.iterate(x) if not isinstance(x, (set, frozenset)) else x
+                if name == "update":
+                    for y in items_:
+                        if not self._set_has_equal(recv, y):
+                            recv.add(y)          # like Python: an element equal to one already present is not added
+                else:
+                    getattr(recv, name)(items_)
             return None
         if isinstance(recv, (set, frozenset)):
             if name in ("issubset", "issuperset", "union", "intersection", "difference", "copy", "isdisjoint"):
